@@ -433,6 +433,72 @@ var mapScenarios = []mapScenario{
 		x.do(oDelete, 1, 0)
 		x.do(oLoad, 2, 0)
 	}},
+	{"adder parked published, length counter not yet incremented (Store into the empty map)", func(x *mapScript, src *lockedSrc) {
+		rel := x.park(7, oStore, 1, 10)
+		x.do(oLoadOrStore, 1, 11) // finds the published node
+		x.do(oLoad, 1, 0)
+		x.do(oRange, 0, 0)
+		x.do(oLazy, 1, 12)
+		x.do(oLoad, 1, 0)
+		release(rel)
+		x.e.wg.Wait()
+		x.do(oLoad, 1, 0)
+	}},
+	{"adder parked published, length counter not yet incremented (LoadOrStore; the key is removed, another stored)", func(x *mapScript, src *lockedSrc) {
+		rel := x.park(7, oLoadOrStore, 1, 10)
+		x.do(oLoad, 1, 0)
+		x.do(oLoadAndDelete, 1, 0) // the counter is now below the number of keys by one
+		x.do(oLoad, 1, 0)
+		x.do(oStore, 2, 20) // counter 0, one key present
+		x.do(oLoad, 2, 0)
+		x.do(oLoadOrStore, 2, 21)
+		x.do(oRange, 0, 0)
+		x.do(oDelete, 1, 0)
+		release(rel)
+		x.e.wg.Wait()
+		x.do(oLoad, 2, 0)
+	}},
+	{"adder parked published, length counter not yet incremented (LoadOrStoreLazy)", func(x *mapScript, src *lockedSrc) {
+		rel := x.park(7, oLazy, 3, 30)
+		x.do(oRange, 0, 0)
+		x.do(oLoad, 3, 0)
+		x.do(oStore, 3, 31)
+		x.do(oLoad, 3, 0)
+		x.do(oDelete, 3, 0)
+		x.do(oLoad, 3, 0)
+		release(rel)
+		x.e.wg.Wait()
+		x.do(oLoad, 3, 0)
+	}},
+	{"remover parked unlinked, length counter not yet decremented (Delete)", func(x *mapScript, src *lockedSrc) {
+		x.do(oStore, 1, 10)
+		rel := x.park(8, oDelete, 1, 0)
+		x.do(oLoad, 1, 0)
+		x.do(oRange, 0, 0)
+		x.do(oLoadOrStore, 1, 11)
+		x.do(oLoad, 1, 0)
+		x.do(oLoadAndDelete, 1, 0)
+		x.do(oLoad, 1, 0)
+		x.do(oDelete, 1, 0)
+		release(rel)
+		x.e.wg.Wait()
+		x.do(oLoad, 1, 0)
+	}},
+	{"remover parked unlinked, length counter not yet decremented (LoadAndDelete), adder parked published", func(x *mapScript, src *lockedSrc) {
+		x.do(oStore, 1, 10)
+		relR := x.park(8, oLoadAndDelete, 1, 0)
+		relA := x.park(7, oStore, 2, 20)
+		x.do(oLoad, 1, 0)
+		x.do(oLoad, 2, 0)
+		x.do(oRange, 0, 0)
+		release(relR)
+		settle()
+		x.do(oLoad, 2, 0) // counter 0, key 2 present
+		x.do(oLoadOrStore, 2, 21)
+		release(relA)
+		x.e.wg.Wait()
+		x.do(oLoad, 2, 0)
+	}},
 }
 
 var setScenarios = []setScenario{
@@ -547,6 +613,38 @@ var setScenarios = []setScenario{
 		x.e.wg.Wait()
 		x.do(sRemoveB, 3)
 		x.do(sRemoveB, 1)
+		x.do(sContainsB, 2)
+	}},
+	{"adder parked published, length counter not yet incremented (AddB into the empty set)", func(x *setScript, src *lockedSrc) {
+		rel := x.park(7, sAddB, 1)
+		x.do(sAddB, 1) // finds the published node
+		x.do(sContainsB, 1)
+		x.do(sRange, 0)
+		x.do(sRemoveB, 1) // the counter is now below the number of members by one
+		x.do(sContainsB, 1)
+		x.do(sAddB, 2) // counter 0, one member
+		x.do(sContainsB, 2)
+		x.do(sRange, 0)
+		release(rel)
+		x.e.wg.Wait()
+		x.do(sContainsB, 2)
+	}},
+	{"remover parked unlinked, length counter not yet decremented, adder parked published", func(x *setScript, src *lockedSrc) {
+		x.do(sAddB, 1)
+		relR := x.park(8, sRemoveB, 1)
+		relA := x.park(7, sAddB, 2)
+		x.do(sContainsB, 1)
+		x.do(sContainsB, 2)
+		x.do(sRange, 0)
+		x.do(sAddB, 1)
+		x.do(sContainsB, 1)
+		release(relR)
+		settle()
+		x.do(sContainsB, 2)
+		x.do(sRemoveB, 1)
+		x.do(sContainsB, 2) // counter 0, member 2 present
+		release(relA)
+		x.e.wg.Wait()
 		x.do(sContainsB, 2)
 	}},
 }
